@@ -272,6 +272,14 @@ def analyse(ctx, replace=None, only=None):
                 return cv is not None and cv["k"] == "member" and cv["f"] == "c_var" and cv.get("rec") == REC_TD
             return False
 
+        # what the wait predicate reads changes only with the mutex held: the scheduler thread tests the predicate under the
+        # mutex and goes to sleep without releasing it in between, so a change (and its notification) made without the mutex
+        # can fall between the test and the wait and wake nobody
+        ls_ = RU.lockset(f)
+        for s_ev in stores:
+            held_ = RU.held_at(ls_, s_ev) or set()
+            R.check(any(h_.endswith("thread_data.mutex") for h_ in held_), "NOTIFY", "predicate-input-changed-under-the-mutex:%s:should_exit" % name, where(f, s_ev),
+                    "should_exit is stored with thread_data.mutex held", "should_exit - read by the wait predicate - is stored without thread_data.mutex (held: %s): the exit request and its notification can fall between the scheduler thread's predicate check and its wait, the final release then blocks for the whole timed wait" % sorted(held_))
         okf, ts = RU.must_follow(f, is_change, is_notify)
         R.check(okf, "NOTIFY", "change-then-notify:%s" % name, "%s()" % name, "every path after changing %s notifies thread_data.c_var" % changed,
                 "a path changes %s and returns without notifying the scheduler thread (lost wake-up)" % changed)
@@ -861,6 +869,8 @@ def noblock(R, fns, helpers=None):
 
 
 MUTANTS = [
+    {"name": "exit-request-published-without-the-mutex", "file": FILE, "expect": "NOTIFY",
+     "old": "    AWS_FATAL_ASSERT(!aws_mutex_lock(&scheduler->thread_data.mutex) && \"mutex lock failed!\");\n    aws_atomic_store_int(&scheduler->should_exit, 1U);\n    AWS_FATAL_ASSERT(!aws_mutex_unlock(&scheduler->thread_data.mutex) && \"mutex unlock failed!\");\n", "new": "    aws_atomic_store_int(&scheduler->should_exit, 1U);\n"},
     {"name": "cancel-record-from-the-non-zeroing-allocation", "file": FILE, "expect": "CANCEL-NODE", "old": "        aws_mem_calloc(scheduler->allocator, 1, sizeof(struct cancellation_node));", "new": "        aws_mem_acquire(scheduler->allocator, sizeof(struct cancellation_node));"},
     {"name": "thread-launched-with-callers-join-strategy", "file": FILE, "expect": "SHUTDOWN-ORDER", "old": "    launch_options.join_strategy = AWS_TJS_MANUAL;\n", "new": ""},
     {"name": "release-fast-path-load-then-store", "file": "source/ref_count.c", "expect": "SHUTDOWN-ORDER",
@@ -889,7 +899,8 @@ MUTANTS = [
     {"name": "timestamp-stored-after-hand-over", "file": FILE, "expect": "NOTIFY",
      "old": "    task->timestamp = time_to_run;\n    AWS_FATAL_ASSERT(!aws_mutex_lock(&scheduler->thread_data.mutex) && \"mutex lock failed!\");\n    aws_linked_list_push_back(&scheduler->thread_data.scheduling_queue, &task->node);\n    AWS_FATAL_ASSERT(!aws_mutex_unlock(&scheduler->thread_data.mutex) && \"mutex unlock failed!\");",
      "new": "    AWS_FATAL_ASSERT(!aws_mutex_lock(&scheduler->thread_data.mutex) && \"mutex lock failed!\");\n    aws_linked_list_push_back(&scheduler->thread_data.scheduling_queue, &task->node);\n    AWS_FATAL_ASSERT(!aws_mutex_unlock(&scheduler->thread_data.mutex) && \"mutex unlock failed!\");\n    task->timestamp = time_to_run;"},
-    {"name": "idle-wait-forever", "file": FILE, "expect": "NOTIFY", "old": "            timeout = (int64_t)30 * (int64_t)AWS_TIMESTAMP_NANOS;", "new": "            timeout = INT64_MAX;"},
+    {"name": "idle-wait-forever", "file": FILE, "expect": "NOTIFY:wait-is-timed", "old": "            timeout = (int64_t)30 * (int64_t)AWS_TIMESTAMP_NANOS;", "new": "            timeout = INT64_MAX;",
+     "old2": "    AWS_FATAL_ASSERT(!aws_mutex_lock(&scheduler->thread_data.mutex) && \"mutex lock failed!\");\n    aws_atomic_store_int(&scheduler->should_exit, 1U);\n    AWS_FATAL_ASSERT(!aws_mutex_unlock(&scheduler->thread_data.mutex) && \"mutex unlock failed!\");\n", "new2": "    aws_atomic_store_int(&scheduler->should_exit, 1U);\n"},  # (an unbounded idle wait matters only while a predicate input is changed without the mutex)
     {"name": "drop-notify-on-cancel", "file": FILE, "expect": "NOTIFY",
      "old": "    /* notify so the loop knows to wakeup and process the cancellations. */\n    aws_condition_variable_notify_one(&scheduler->thread_data.c_var);",
      "new": "    /* notify so the loop knows to wakeup and process the cancellations. */\n"},
